@@ -243,3 +243,115 @@ def item_product_loop(repo, out):
 
 
 ITEMS += [item_interp_edges, item_cal_dispatch, item_skip_rule, item_product_loop]
+
+
+# ---------------------------------------------------------------------------
+# stream discovery: VisibilityDataV4._register_standard_cal_streams (Model/CalSelect.v `discover` / `registered`)
+_DISCOVERY_TEMPLATE = '''
+def _register_standard_cal_streams(self, gaincal_flux):
+    attrs = self.source.metadata.attrs
+    l1_stream = ''
+    l2_streams = []
+    archived_streams = attrs.get('sdp_archived_streams', [])
+    for stream in archived_streams:
+        stream_attrs = _relative_view(attrs, stream)
+        stream_type = stream_attrs.get('stream_type')
+        if %(g1)sstream_type == %(cal)r:
+            l1_stream = stream
+        %(second)s %(g2)sstream_type == %(img)r:
+            targets = stream_attrs.get('targets', {})
+            l2_streams = [attrs.join(stream, target + %(suffix)r) for target in targets.values()]
+    if not l1_stream:
+        l1_stream = %(default)r
+    freqs = self.spectral_windows[0].channel_freqs
+    cal_freqs = {}
+    l1_attrs = _relative_view(attrs, l1_stream)
+    l1_freqs = add_applycal_sensors(self.sensor, l1_attrs, freqs, cal_stream='l1',
+                                    cal_substreams=[l1_stream], gaincal_flux=gaincal_flux)
+    if l1_freqs is not None:
+        cal_freqs['l1'] = l1_freqs
+    if l2_streams:
+        l2_attrs = _relative_view(attrs, l2_streams[0])
+        l2_freqs = add_applycal_sensors(self.sensor, l2_attrs, freqs, cal_stream='l2',
+                                        cal_substreams=l2_streams, gaincal_flux=None)
+        if l2_freqs is not None:
+            cal_freqs['l2'] = l2_freqs
+    return cal_freqs
+'''
+
+
+def _type_test(test, guard_name, rel):
+    """`[not <guard_name> and] stream_type == '<type>'` -> (guarded?, type)"""
+    guarded = False
+    if isinstance(test, ast.BoolOp) and isinstance(test.op, ast.And) and len(test.values) == 2:
+        # both conjuncts are free of effects: `<type test> and not <guard>` is put into the template's order
+        if isinstance(test.values[0], ast.Compare) and isinstance(test.values[1], ast.UnaryOp):
+            test.values.reverse()
+        g, test = test.values
+        if not (isinstance(g, ast.UnaryOp) and isinstance(g.op, ast.Not) and isinstance(g.operand, ast.Name)
+                and g.operand.id == guard_name):
+            raise TranslateError('%s: stream discovery: guard %s not understood (expected `not %s`)' % (
+                rel, _norm(g), guard_name))
+        guarded = True
+    if not (isinstance(test, ast.Compare) and isinstance(test.left, ast.Name) and test.left.id == 'stream_type'
+            and len(test.ops) == 1 and isinstance(test.ops[0], ast.Eq) and isinstance(test.comparators[0], ast.Constant)
+            and isinstance(test.comparators[0].value, str) and test.comparators[0].value):
+        raise TranslateError('%s: stream discovery: test %s not understood' % (rel, _norm(test)))
+    return guarded, test.comparators[0].value
+
+
+def item_stream_discovery(repo, out):
+    """_register_standard_cal_streams: the decisions of the walk over sdp_archived_streams (which stream types count, is
+    the FIRST sdp.cal stream kept, is an imager WITHOUT self-cal targets passed over, the default L1 stream, the
+    substream suffix); everything else of the method must be the template above, compared in the translator's normal
+    form (docstrings, comments, logging, message texts do not matter)"""
+    from vh.translate import _class, _func, normalise_source
+    rel = 'katdal/visdatav4.py'
+    tree = _parse(repo, rel)
+    fn = _func(_class(tree, 'VisibilityDataV4', rel), '_register_standard_cal_streams', rel)
+    loops = [s for s in fn.body if isinstance(s, ast.For)]
+    if len(loops) != 1 or _norm(loops[0].iter) != 'archived_streams' or _norm(loops[0].target) != 'stream':
+        raise TranslateError('%s: _register_standard_cal_streams: expected one `for stream in archived_streams` loop '
+                             '(stream discovery is modelled as ONE walk over the archived streams)' % rel)
+    ifs = [s for s in loops[0].body if isinstance(s, ast.If)]
+    if len(ifs) == 1 and len(ifs[0].orelse) == 1 and isinstance(ifs[0].orelse[0], ast.If) and not ifs[0].orelse[0].orelse:
+        first, second, form = ifs[0], ifs[0].orelse[0], 'elif'
+    elif len(ifs) == 2 and not ifs[0].orelse and not ifs[1].orelse:
+        first, second, form = ifs[0], ifs[1], 'if'
+    else:
+        raise TranslateError('%s: _register_standard_cal_streams: the loop body is not `if <cal test>: .. elif <imager '
+                             'test>: ..`' % rel)
+    g1, cal = _type_test(first.test, 'l1_stream', rel)
+    g2, img = _type_test(second.test, 'l2_streams', rel)
+    if cal == img:
+        raise TranslateError('%s: stream discovery: L1 and L2 use the same stream type %r' % (rel, cal))
+    suffix = [n.right.value for n in ast.walk(second) if isinstance(n, ast.BinOp) and isinstance(n.op, ast.Add)
+              and isinstance(n.left, ast.Name) and n.left.id == 'target' and isinstance(n.right, ast.Constant)
+              and isinstance(n.right.value, str)]
+    tail = [s for s in fn.body[fn.body.index(loops[0]) + 1:] if isinstance(s, ast.If)]
+    default = [s.value.value for s in (tail[0].body if tail else []) if isinstance(s, ast.Assign)
+               and isinstance(s.value, ast.Constant) and isinstance(s.value.value, str)]
+    if len(suffix) != 1 or len(default) != 1 or not default[0]:
+        raise TranslateError('%s: stream discovery: substream suffix / default L1 stream not found' % rel)
+    want = normalise_source(_DISCOVERY_TEMPLATE % dict(
+        g1='not l1_stream and ' if g1 else '', g2='not l2_streams and ' if g2 else '', cal=cal, img=img,
+        second=form, suffix=suffix[0], default=default[0])).strip().split('\n')
+    got = ast.unparse(ast.FunctionDef(name=fn.name, args=fn.args, body=fn.body, decorator_list=[], returns=None,
+                                      type_comment=None, lineno=0, col_offset=0)).strip().split('\n')
+    if got != want:
+        k = next((i for i, (a, b) in enumerate(zip(got, want)) if a != b), min(len(got), len(want)))
+        raise TranslateError('%s: _register_standard_cal_streams differs from the modelled method at statement line %d: '
+                             'found %r, modelled %r' % (rel, k, got[k].strip() if k < len(got) else '<end>',
+                                                        want[k].strip() if k < len(want) else '<end>'))
+    out.append('(* katdal/visdatav4.py _register_standard_cal_streams: the walk over sdp_archived_streams *)')
+    out.append('Definition disc_cal_type : string := %s.' % coq_string(cal))
+    out.append('Definition disc_image_type : string := %s.' % coq_string(img))
+    out.append('Definition disc_l1_default : string := %s.' % coq_string(default[0]))
+    out.append('Definition disc_selfcal_suffix : string := %s.' % coq_string(suffix[0]))
+    out.append('(* `not l1_stream and ..`: the first sdp.cal stream is kept; `not l2_streams and ..`: an imager is '
+               'taken only while no self-cal substream has been found, i.e. one without targets is passed over *)')
+    out.append('Definition disc_l1_guarded : bool := %s.' % _coq_bool(g1))
+    out.append('Definition disc_l2_guarded : bool := %s.' % _coq_bool(g2))
+
+
+ITEMS += [item_stream_discovery]
